@@ -15,6 +15,10 @@
 //!   some unused indices, `get_cell_value_by_range` on rectangles around the content,
 //!   `get_highest_column_and_row` (+ `get_highest_row/column`) and
 //!   `calculate_worksheet_dimension` equal the brute-force answer over E; no duplicates.
+//! * no cell is lost: operations that delete nothing by their documented meaning
+//!   (get_cell_mut, set_cell/set value/remove_cell apart from the addressed cell, styling
+//!   calls, save) keep every existing cell with its value; inserts keep the multiset of
+//!   values (what removals, move, copy and cleanup delete is C07's business).
 //! On save (`Save` ops and once at the end): every row that holds a cell of E is in
 //! `get_row_dimensions()`; the bytes written by `write_writer`, read back with the
 //! library's own `read_reader`, contain every cell of E that has a non-empty value, at
@@ -80,8 +84,8 @@ fn op_kinds() -> Vec<(u32, AKind)> {
     ]
 }
 
-fn strategy(_t: Tier) -> BoxedStrategy<Case> {
-    (sheet_spec(14, false), prop::collection::vec(aop(op_kinds()), 1..=60))
+fn strategy(t: Tier) -> BoxedStrategy<Case> {
+    (sheet_spec(t.pick(14, 28), false), prop::collection::vec(aop(op_kinds()), 1..=60))
         .prop_map(|(sheet, ops)| Case { sheet, ops })
         .boxed()
 }
@@ -330,6 +334,63 @@ pub fn save_check(book: &Spreadsheet) -> Option<(String, String)> {
     None
 }
 
+/// Brute-force scan: own coordinate -> value text of every existing cell.
+fn scan(ws: &Worksheet) -> BTreeMap<Pos, String> {
+    ws.get_collection_to_hashmap().values().map(|c| (own(c), c.get_value().to_string())).collect()
+}
+
+/// "No cell is lost": operations that by their documented meaning delete nothing must keep
+/// every existing cell (with its value); inserts must keep the multiset of values.
+/// Removals, move, copy and cleanup delete by design and are C07's business.
+fn content_check(op: &COp, before: &BTreeMap<Pos, String>, after: &BTreeMap<Pos, String>) -> Option<(String, String)> {
+    let kind = op.kind_name();
+    let touched: Option<Pos> = match op {
+        COp::SetValue { row, col, .. } | COp::SetCell { row, col, .. } | COp::RemoveCell { row, col, .. } => Some((*row, *col)),
+        _ => None,
+    };
+    match op {
+        COp::Insert { .. } => {
+            let mut a: Vec<&String> = before.values().collect();
+            let mut b: Vec<&String> = after.values().collect();
+            a.sort();
+            b.sort();
+            if a != b {
+                return fail("content", &format!("lost-by-{}", kind), format!("cell values before {:?}, after {:?}", a, b));
+            }
+        }
+        COp::GetCellMut { .. }
+        | COp::SetStyle { .. }
+        | COp::StyleRange { .. }
+        | COp::StyleRows { .. }
+        | COp::StyleCols { .. }
+        | COp::CopyRowStyling { .. }
+        | COp::CopyColStyling { .. }
+        | COp::SetValue { .. }
+        | COp::SetCell { .. }
+        | COp::RemoveCell { .. } => {
+            for (pos, v) in before {
+                if Some(*pos) == touched {
+                    continue;
+                }
+                if after.get(pos) != Some(v) {
+                    return fail(
+                        "content",
+                        &format!("lost-by-{}", kind),
+                        format!("cell {} = {:?} became {:?}", show(*pos), v, after.get(pos)),
+                    );
+                }
+            }
+            if let COp::RemoveCell { row, col, .. } = op {
+                if after.contains_key(&(*row, *col)) {
+                    return fail("content", "remove-cell-left-the-cell", format!("cell {} still exists", show((*row, *col))));
+                }
+            }
+        }
+        _ => {}
+    }
+    None
+}
+
 fn is_shift(op: &COp) -> bool {
     matches!(op, COp::Insert { .. } | COp::Remove { .. } | COp::Move { .. } | COp::Copy { .. })
 }
@@ -379,6 +440,7 @@ fn check(case: &Case, obs: &mut Obs) -> Verdict {
         };
         let kind = op.kind_name();
         trace.push(format!("#{} {:?}", i, op));
+        let before = scan(book.get_sheet(&0).unwrap());
         if op == COp::Save {
             if let Some(v) = judge(guard(|| save_check(&book)), "save", &trace) {
                 return v;
@@ -409,6 +471,10 @@ fn check(case: &Case, obs: &mut Obs) -> Verdict {
         }
         let probe = (row_of(aop.d), col_of(aop.e));
         if let Some(v) = judge(guard(|| coherence(book.get_sheet(&0).unwrap(), probe)), "observer", &trace) {
+            return v;
+        }
+        let after = scan(book.get_sheet(&0).unwrap());
+        if let Some(v) = judge(Ok(content_check(&op, &before, &after)), "content", &trace) {
             return v;
         }
     }
